@@ -81,3 +81,12 @@ Proof.
     exists [70;111;111]%N, [66;97;114]%N. repeat split; simpl; intuition discriminate.
   - split; [cbn; repeat split; reflexivity|vm_compute; reflexivity].
 Qed.
+
+(* the clash the second theorem excludes: a type of namespace Foo that is called utf8 is written as name="utf8" and comes back
+   as the fundamental type - another type, the same XML *)
+Example C07_type_clash :
+  let ns := [70;111;111]%N in
+  let t := ANamed [70;111;111;46;117;116;102;56]%N None in
+  read_ty ns (write_ty ns t) = Some (AFund [117;116;102;56]%N None) /\
+  write_ty ns (AFund [117;116;102;56]%N None) = write_ty ns t.
+Proof. vm_compute. split; reflexivity. Qed.
